@@ -1030,6 +1030,12 @@ def WF (g : Geo) : Bool :=
      nodup (g.wells.map (·.name))
    | _, _ => false)
 
+/-- the two header sizes (`10.2e` fields) print identically before and after rounding to three
+    significant digits (evaluated, not proved in general; the `10.2f` fields need no such hypothesis) -/
+def SizesStable (g : Geo) : Bool :=
+  writeField fE (roundE 2 g.hdr.atmosVolume).toVal == writeField fE g.hdr.atmosVolume.toVal &&
+  writeField fE (roundE 2 g.hdr.atmosConnection).toVal == writeField fE g.hdr.atmosConnection.toVal
+
 /-- rounding moves no surface across a layer boundary: every comparison the name lists make has
     the same outcome in `g` and in `canonGeo g` -/
 def StableSurfaces (g : Geo) : Bool :=
